@@ -326,18 +326,24 @@ def far_datasets(recs, sizes, bounded):
     return out
 
 
-def make_dataset(recs, sizes):
+def make_dataset(recs, sizes, weighted=False):
     import pandas as pd
     from mbi import Dataset, Domain
     df = pd.DataFrame(np.array(recs, dtype=int).reshape(len(recs), len(sizes)), columns=ATTRS[:len(sizes)])
+    if weighted:   # the same data spelled as a weighted dataset with unit weights
+        return Dataset(df, Domain(ATTRS[:len(sizes)], sizes), np.ones(len(recs)))
     return Dataset(df, Domain(ATTRS[:len(sizes)], sizes))
 
 
 # ---------------------------------------------------------------------------
 # mechanism drivers
 # ---------------------------------------------------------------------------
-def mechanism_call(spec):
-    """spec: dict(mech=..., eps, delta, ...) -> (callable(dataset) -> synthetic Dataset, bounded, unit)"""
+_REUSED = {}
+
+
+def mechanism_call(spec, fresh=True):
+    """spec: dict(mech=..., eps, delta, ...) -> (callable(dataset) -> synthetic Dataset, bounded, unit).
+    spec['reuse']: the neighbour executions run on the SAME mechanism object as the base execution (a new object per base execution)"""
     mech = spec['mech']
     eps, delta = spec['eps'], spec['delta']
     if mech == 'mst':
@@ -351,6 +357,11 @@ def mechanism_call(spec):
             kw['max_model_size'] = spec['max_model_size']
         if spec.get('prng') == 'np.random':
             kw['prng'] = np.random
+        if spec.get('reuse'):
+            if fresh or 'aim' not in _REUSED:
+                _REUSED['aim'] = mod.AIM(eps, delta, rounds=spec.get('rounds'), **kw)
+            obj = _REUSED['aim']
+            return (lambda d: obj.run(d, wl)), False, 'rho'
         return (lambda d: mod.AIM(eps, delta, rounds=spec.get('rounds'), **kw).run(d, wl)), False, 'rho'
     if mech == 'mwem':
         mod = mechload.load('mwem')
@@ -367,8 +378,8 @@ def mechanism_call(spec):
 LAST_INPUT_MUTATION = [None]
 
 
-def run_mechanism(fn, recs, sizes, env):
-    ds = make_dataset(recs, sizes)
+def run_mechanism(fn, recs, sizes, env, weighted=False):
+    ds = make_dataset(recs, sizes, weighted)
     dom0 = ds.domain
     snap = (tuple(dom0.attrs), tuple(dom0.shape), dict(dom0.config), ds.df.values.copy(), list(ds.df.columns))
     try:
@@ -472,7 +483,7 @@ def run_base(spec, recs, sizes, prefix, seed, noise_alts):
     raised = None
     out = None
     try:
-        out = run_mechanism(fn, recs, sizes, env)
+        out = run_mechanism(fn, recs, sizes, env, bool(spec.get('weights')))
     except MechanismRaised as ex:
         raised = str(ex)
     ctrl.base = BaseExec(ctrl, trace_of(env), out, raised)
@@ -481,10 +492,10 @@ def run_base(spec, recs, sizes, prefix, seed, noise_alts):
 
 
 def run_neighbour(spec, recs, sizes, trace, seed):
-    fn, bounded, unit = mechanism_call(spec)
+    fn, bounded, unit = mechanism_call(spec, fresh=False)
     env = LockstepEnv('replay', trace=trace, seed=seed)
     try:
-        out = run_mechanism(fn, recs, sizes, env)
+        out = run_mechanism(fn, recs, sizes, env, bool(spec.get('weights')))
     except Divergence as ex:
         return {'diverged': str(ex), 'events': trace_of(env), 'out': None}
     except MechanismRaised as ex:
